@@ -16,13 +16,20 @@ if '-k' in sys.argv:
     kfilter = sys.argv[sys.argv.index('-k') + 1]
     args = [a for a in args if a != kfilter]
 files = sorted(glob.glob(f'{V}/selftest/mutants/*/*.json'))
-ok = bad = 0
-for f in files:
+jobs = 1
+if '-j' in sys.argv:
+    jobs = int(sys.argv[sys.argv.index('-j') + 1])
+    args = [a for a in args if a != str(jobs)]
+import threading
+from concurrent.futures import ThreadPoolExecutor
+lock = threading.Lock()
+counts = {'ok': 0, 'bad': 0}
+def run_one(f):
     prop = os.path.basename(os.path.dirname(f))
     if args and prop not in args:
-        continue
+        return
     if kfilter and kfilter not in f:
-        continue
+        return
     m = json.load(open(f))
     tmp = tempfile.mkdtemp(prefix='gvcself')
     try:
@@ -38,15 +45,15 @@ for f in files:
             open(p, 'w').write(s.replace(e['old'], e['new']))
         if fail:
             print(f'STALE  {prop}/{os.path.basename(f)}: {fail}')
-            bad += 1
-            continue
+            with lock: counts['bad'] += 1
+            return
         if m.get('build', True):
             b = subprocess.run(['go', 'build', './...'], cwd=tmp, capture_output=True, text=True,
                                env=dict(os.environ, GOFLAGS='-mod=mod', GOPROXY='off', GOSUMDB='off', GOTOOLCHAIN='local'))
             if b.returncode != 0:
                 print(f'NOBUILD {prop}/{os.path.basename(f)}: {b.stderr[:300]}')
-                bad += 1
-                continue
+                with lock: counts['bad'] += 1
+                return
         t0 = time.time()
         extra = ['-focus', m['obligation']] if (focus and m.get('obligation') and m['expect'] == 'violation' and not m.get('nofocus')) else []
         r = subprocess.run([f'{V}/bin/gvc', 'check', '-repo', tmp, '-no-evidence', '-replay-dir', tmp + '/.replays'] + extra + [prop],
@@ -57,15 +64,16 @@ for f in files:
         if good and m.get('obligation') and got == 'violation':
             good = any(m['obligation'] in l for l in viol)
         tag = 'ok    ' if good else 'WRONG '
-        if good:
-            ok += 1
-        else:
-            bad += 1
+        with lock:
+            counts['ok' if good else 'bad'] += 1
         obl = '; '.join(l.strip().replace('failed obligation: ', '') for l in viol if 'failed obligation' in l)[:200]
         print(f'{tag} {prop}/{os.path.basename(f)[:-5]}: expected {m["expect"]}, got {got} ({time.time()-t0:.0f}s) {obl}')
         if not good and r.returncode not in (0, 1):
             print(r.stdout[-500:], r.stderr[-500:])
     finally:
         shutil.rmtree(tmp, ignore_errors=True)
+with ThreadPoolExecutor(max_workers=jobs) as ex:
+    list(ex.map(run_one, files))
+ok, bad = counts['ok'], counts['bad']
 print(f'selftest: {ok} as expected, {bad} wrong')
 sys.exit(1 if bad else 0)
